@@ -246,6 +246,7 @@ func profileFor(prop string, r *sim.Rand, i int, quick bool) sim.Profile {
 		p.BurnPct, p.EvidencePct = 15, 6
 		p.MissLevels = []int{0, 0, 20, 60, 100}
 		p.PhaseLen = 12
+		p.AimPct = 30
 	case "C07":
 		p = baseProfile(r, true)
 		p.Blocks = 150
@@ -365,13 +366,13 @@ func init() {
 	reg("C05", "one case = one generated history; non-trivial = at least one non-empty validator-update batch was applied to Tendermint's ValidatorSet; distinct by hash of the request log",
 		[]string{"c05.nonempty_update_batches"}, map[string]int64{"c05.nonempty_update_batches": 200, "c05.sets_compared": 2000, "c05.cutoff_active": 20}, false)
 	reg("C06", "one case = one generated history; non-trivial = at least one status edge observed; distinct by hash of the request log",
-		[]string{"c06.edge.staked->unstaking", "c06.edge.absent->staked", "c06.edge.unstaked->staked"}, map[string]int64{"c06.edge.staked->unstaking": 20, "c06.payouts": 5, "c06.structure_checks": 5000}, false)
+		[]string{"c06.edge.staked->unstaking", "c06.edge.absent->staked", "c06.edge.unstaked->staked"}, map[string]int64{"c06.edge.staked->unstaking": 20, "c06.payouts": 5, "c06.structure_checks": 5000, "c06.payout_exactly_at_completion": 20, "c06.forced_unstakes": 5}, false)
 	reg("C07", "one case = one generated history; non-trivial = at least one slash burned tokens; distinct by hash of the request log",
-		[]string{"c07.slashes_burning", "c07.double_sign_burns"}, map[string]int64{"c07.slashes_burning": 20, "c07.queued_burns": 20}, false)
+		[]string{"c07.slashes_burning", "c07.double_sign_burns"}, map[string]int64{"c07.slashes_burning": 20, "c07.queued_burns": 20, "c07.evidence_exactly_at_max_age": 10, "c07.crossed_minimum": 10, "c07.slash_of_unstaking": 10, "c07.double_sign_burns": 10, "c07.downtime_slashes": 10}, false)
 	reg("C08", "one case = one generated history over >= 4 windows; non-trivial = at least one missed vote was accounted; distinct by hash of the request log",
 		[]string{"c08.missed_votes"}, map[string]int64{"c08.votes": 5000, "c08.downtime_punishments": 10}, false)
 	reg("C09", "one case = one generated history; non-trivial = a jailing or an unjail attempt occurred; distinct by hash of the request log",
-		[]string{"c09.jailings", "c09.unjail_success", "c09.unjail_refused"}, map[string]int64{"c09.jailings": 10, "c09.unjail_refused": 10, "c09.jailed_checked": 50}, false)
+		[]string{"c09.jailings", "c09.unjail_success", "c09.unjail_refused"}, map[string]int64{"c09.jailings": 10, "c09.unjail_refused": 10, "c09.jailed_checked": 50, "c09.unjail_exactly_at_jailed_until": 5, "c09.unjail_refused_one_second_early": 3, "c09.unjail_success": 10, "c09.tombstones": 3}, false)
 	reg("C10", "one case = one generated history; non-trivial = a block distributed non-zero fees or minted an award; distinct by hash of the request log",
 		[]string{"c10.nonzero_fee_blocks", "c10.award_blocks"}, map[string]int64{"c10.nonzero_fee_blocks": 200, "c10.award_blocks": 100, "c10.fee_blocks_unknown_proposer": 10}, false)
 	reg("C11", "one case = one generated history with hostile bytes and read-only traffic; non-trivial = contains a rejected DeliverTx or a read-only call; distinct by hash of the request log",
